@@ -993,6 +993,8 @@ zero(struct func *func, struct value *addr, int align, unsigned long long offset
 	struct value *tmp;
 	int a = 1;
 
+	if (align > 8)
+		align = 8;  /* widest store */
 	while (offset < end) {
 		if ((align - (offset & align - 1)) & a) {
 			tmp = offset ? funcinst(func, IADD, ptrclass, addr, mkintconst(offset)) : addr;
